@@ -503,6 +503,9 @@ def _flatten_case(draw, tier):
         "proj": draw(st.sampled_from(["value", "value::varchar", "value:a", "value:a::varchar", "value[0]"])),
         "alias": draw(st.sampled_from(["f", "flat", None])),
         "extra_rows": draw(st.integers(0, 2)),
+        # where the flatten sits in the query: alone, behind another flatten, behind a flatten whose elements it flattens again,
+        # or inside a CTE whose VALUE column is converted outside
+        "shape": draw(st.sampled_from(["single", "single", "second-of-two", "chained", "in-cte"])),
     }
 
 
@@ -531,7 +534,33 @@ def run_flatten(case, ctx: Ctx) -> None:
             cur.execute("CREATE TABLE T (ID INT, V VARIANT)")
             doc = arr if source == "column" else {"items": arr}
             cur.execute(f"INSERT INTO T SELECT 1, PARSE_JSON({sql_str(json.dumps(doc))})")
-        sql = f"SELECT {p} AS R FROM {frm}LATERAL FLATTEN(input => {inp}){(' AS ' + alias) if alias else ''}"
+        shape = case.get("shape", "single")
+        if shape not in ("single", "second-of-two", "chained", "in-cte"):
+            raise InvalidCase()
+        if shape != "single" and (not alias or proj not in ("value", "value::varchar")):
+            shape = "single"
+        ctx.cls(f"flatten-shape:{shape}")
+        if shape == "single":
+            sql = f"SELECT {p} AS R FROM {frm}LATERAL FLATTEN(input => {inp}){(' AS ' + alias) if alias else ''}"
+        elif shape == "second-of-two":
+            sql = f"SELECT {p} AS R FROM {frm}LATERAL FLATTEN(input => PARSE_JSON('[0]')) AS F0, LATERAL FLATTEN(input => {inp}) AS {alias}"
+        elif shape == "chained":
+            # the input becomes an array of one-element arrays; the second flatten opens them again
+            if source == "split":
+                shape, sql = "single", f"SELECT {p} AS R FROM LATERAL FLATTEN(input => {inp}) AS {alias}"
+            else:
+                nested = [[e] for e in arr]
+                if frm:
+                    doc2 = nested if source == "column" else {"items": nested}
+                    cur.execute("DELETE FROM T")
+                    cur.execute(f"INSERT INTO T SELECT 1, PARSE_JSON({sql_str(json.dumps(doc2))})")
+                    inp2 = inp
+                else:
+                    inp2 = f"PARSE_JSON({sql_str(json.dumps(nested))})"
+                sql = f"SELECT {p} AS R FROM {frm}LATERAL FLATTEN(input => {inp2}) AS F1, LATERAL FLATTEN(input => F1.value) AS {alias}"
+        else:
+            outer = proj.replace("value", "X.value")
+            sql = f"WITH C AS (SELECT {alias}.value AS value FROM {frm}LATERAL FLATTEN(input => {inp}) AS {alias}) SELECT {outer} AS R FROM C AS X"
 
         def want_of(e):
             if proj == "value":
@@ -547,10 +576,11 @@ def run_flatten(case, ctx: Ctx) -> None:
             return None if m is MISSING else ("json", m)
 
         want = [want_of(e) for e in arr]
+        case_arr = list(arr)
         kinds = sorted({type(e).__name__ for e in arr})
         ctx.cls(f"flatten:{source}", f"flatten-proj:{proj}", "flatten:empty" if not arr else "flatten:non-empty")
         ctx.nontrivial = len(arr) != 1 or proj != "value"
-        disc = f"{source}|{proj}"
+        disc = f"{source}|{proj}" + ("" if shape == "single" else f"|{shape}")
         o = run(cur, sql)
         if not o.ok:
             ctx.fail(f"C11|flatten|raises|{o.etype}|{disc}|elements={'+'.join(kinds) or 'none'}", f"{sql} over {json.dumps(arr)}: {o}")
@@ -558,6 +588,31 @@ def run_flatten(case, ctx: Ctx) -> None:
         got = [r[0] for r in o.rows]
         if len(got) != len(want):
             ctx.fail(f"C11|flatten|wrong-row-count|{disc}", f"{sql} over {json.dumps(arr)}: {len(got)} rows {got!r}, want {len(want)}")
+            return
+        if shape in ("in-cte", "chained"):
+            # the row order of a CTE / of two joined flattens is not defined (and FLATTEN's INDEX column is not available to order by):
+            # compare the multisets of canonical forms
+            def canon_want(w):
+                if w is None or (isinstance(w, tuple) and w[1] is None):
+                    return "<null>"
+                return "s:" + w if isinstance(w, str) else "j:" + json.dumps(w[1], sort_keys=True, separators=(",", ":"))
+
+            def canon_got(g, w_is_text: bool):
+                if g is None or g == "null":
+                    return "<null>"
+                if w_is_text:
+                    return "s:" + str(g)
+                try:
+                    return "j:" + json.dumps(json.loads(g), sort_keys=True, separators=(",", ":"))
+                except (ValueError, TypeError):
+                    return "raw:" + repr(g)
+
+            cw = sorted(canon_want(w) for w in want)
+            texts = {w for w in want if isinstance(w, str)}
+            cg = sorted(canon_got(g, proj == "value::varchar" and g in texts) for g in got)
+            if cg != cw:
+                quoted = any(isinstance(g, str) and g.startswith('"') and g[1:-1] in texts for g in got)
+                ctx.fail(f"C11|flatten|{'keeps-json-quotes' if quoted else 'wrong-element'}|{disc}|multiset", f"{sql} over {json.dumps(arr)}: got {got!r}, want (in any order) {want!r}")
             return
         for g, w, e in zip(got, want, arr):
             if w is None:
